@@ -150,9 +150,21 @@ def r08c(ctx):
                         helpers_.append(h_)
             zips = [c for g_ in [f] + helpers_ for c in walk_no_nested(g_.node)
                     if isinstance(c, ast.Call) and (call_name(c) or "").split(".")[-1] in ("zip", "zip_longest")]
-            idx = [s for s in walk_no_nested(f.node) if isinstance(s, ast.Subscript) and isinstance(s.slice, ast.Name)
-                   and any(isinstance(a, ast.For) and isinstance(a.iter, ast.Call) and call_name(a.iter) in ("range", "enumerate")
-                           for a in [x for x in ast.walk(f.node) if isinstance(x, ast.For)])]
+            # `theirs[i]` with i counted by range() / enumerate() - in a loop or in a comprehension - is the same positional pairing
+            idx = []
+            for g_ in [f] + helpers_:
+                counters = set()
+                for a in walk_no_nested(g_.node):
+                    gens = [(a.target, a.iter)] if isinstance(a, ast.For) else \
+                        [(c_.target, c_.iter) for c_ in a.generators] if isinstance(a, (ast.GeneratorExp, ast.ListComp, ast.SetComp, ast.DictComp)) else []
+                    for tg_, it_ in gens:
+                        if isinstance(it_, ast.Call) and call_name(it_) == "range" and isinstance(tg_, ast.Name):
+                            counters.add(tg_.id)
+                        elif isinstance(it_, ast.Call) and call_name(it_) == "enumerate" and isinstance(tg_, ast.Tuple) and tg_.elts \
+                                and isinstance(tg_.elts[0], ast.Name):
+                            counters.add(tg_.elts[0].id)
+                idx += [s for s in walk_no_nested(g_.node) if isinstance(s, ast.Subscript) and isinstance(s.slice, ast.Name)
+                        and s.slice.id in counters and isinstance(s.ctx, ast.Load)]
             positional = [c for c in walk_no_nested(f.node) if isinstance(c, ast.Call)
                           and (call_name(c) or "").split(".")[-1] in ("FixedLengthSequenceEdit", "EditDistance")]
             if positional:
@@ -162,6 +174,10 @@ def r08c(ctx):
             elif zips:
                 ctx.violation("R08c", f.file, f.short, zips[0], f"{f.short} positional pairing",
                               f"`{norm(zips[0], 60)}` pairs the two mappings' items by position: reordering keys changes which "
+                              f"items are paired")
+            elif idx:
+                ctx.violation("R08c", f.file, f.short, idx[0], f"{f.short} positional pairing",
+                              f"`{norm(idx[0], 60)}` picks the other side's item by a running index: reordering keys changes which "
                               f"items are paired")
             else:
                 ctx.proved("R08c", f.file, f.short, f.node, f"{f.short} no positional pairing", "items are paired by equality / key / assignment only")
